@@ -542,7 +542,7 @@ class IRWithUses(ABC):
 _VALUE_NAME_PATTERN = re.compile(r"([A-Za-z_$.-][\w$.-]*)")
 """Pattern to check if a name is valid for an SSAValue or Block."""
 
-_VALUE_NAME_SUFFIX_PATTERN = re.compile(r"(_\d+)$")
+_VALUE_NAME_SUFFIX_PATTERN = re.compile(r"(_\d+)+$")
 """This pattern is used to remove the suffix from an SSAValue or Block name."""
 
 
@@ -576,7 +576,7 @@ class IRWithName(ABC):
     @classmethod
     def extract_valid_name(cls, name: str | None) -> str | None:
         """
-        If the name is valid, extracts the name before an optional `_\\d+` suffix.
+        If the name is valid, extracts the name before all trailing `_\\d+` suffixes.
         Raises ValueError otherwise.
         """
         if name is None:
